@@ -187,7 +187,7 @@ def main():
             else:
                 violations.append((fl, r, fl.name in base))
         if vac:
-            vac_info.append(dict(unit=name, probes=vac['probes'], refuted=vac['refuted'], vacuous=vac['vacuous']))
+            vac_info.append(dict(unit=name, probes=vac['probes'], refuted=vac['refuted'], vacuous=vac['vacuous'], inconclusive=vac.get('inconclusive', [])))
             if vac['vacuous']:
                 undecided.append('%s: vacuity probe verified (contradictory precondition?) in %s' % (name, vac['vacuous']))
         for p in r.unit.prov:
